@@ -48,6 +48,19 @@ def check_mapping(ctx, name, reg, case, expect_keys=None, absent_keys=()):
             ctx.fail("{}: item {!r} has resistance {!r}".format(name, k, it.resistance), case)
         if k not in reg:
             ctx.fail("{}: `{!r} in registry` is False for a yielded key".format(name, k), case)
+    # every item is its own: looked up all together (a parts list built in one go), each still holds the record with its
+    # own key afterwards — also when two files have the same content
+    held = {}
+    for k in keys:
+        try:
+            held[k] = reg[k]
+        except Exception:  # noqa   (reported above)
+            pass
+    for k, it in held.items():
+        if it.id != k or it.entity.record.id != k:
+            ctx.fail("{}: after looking up all of {} keys, the item obtained for {!r} has id {!r} / record id {!r}".format(
+                name, len(keys), k, it.id, it.entity.record.id), case)
+            break
     for absent in ["__absent__", "", "pYTK999x"] + list(absent_keys):
         if absent in keys:
             continue
@@ -388,6 +401,13 @@ def gen_dir(rng, nsrc):
                       "labels": rng.choice([None, None, "tag-second", "others-multi", "both"])})
     dirs = rng.sample(["sub", "old.gb", "x", "backup.gbk"], rng.randint(0, 2))
     gbfiles = [f for f in files if f["ext"] in ("gb", "gbk")]
+    if gbfiles and rng.random() < 0.4:
+        # the same plasmid saved twice under different names (a copy, a renamed export): byte-identical files
+        f = rng.choice(gbfiles)
+        stem = "copy" + str(rng.randrange(100))
+        if stem not in stems:
+            stems.add(stem)
+            files.insert(rng.randrange(len(files) + 1), dict(f, stem=stem, ext=rng.choice(["gb", "gbk"])))
     if gbfiles and rng.random() < 0.3:
         f = rng.choice(gbfiles)
         dirs.append(f["stem"] + "." + ("gbk" if f["ext"] == "gb" else "gb"))      # pX.gb/ next to pX.gbk
